@@ -390,3 +390,119 @@ Proof.
     rewrite UF2. apply strip_txt_id. exact EF.
 Qed.
 Print Assumptions from_a_removed.
+
+(* the action record does not see the redundant FROM a *)
+Theorem from_a_redundant : forall fl s q l1 l2 a fw g c,
+  wf_aq fl false q = true -> sigma_ok s q -> s_order s = l1 ++ l2 ->
+  (exists top d cn sel, q_kind q = QSelect top d cn sel) ->
+  case_rel K_FROM fw -> ci_eq fl 65 c = true ->
+  fa_quiet fl (render (lead0 s l2) q ++ (match l2 with [] => [SP] | _ :: _ => [] end)) = true ->
+  separate_actions fl false (remove_redundant_input_table_name fl (render_from s q l1 l2 a fw g c))
+  = separate_actions fl false (render s q).
+Proof.
+  intros fl s q l1 l2 a fw g c W SO OR KQ CF CA FQ. rewrite (from_a_removed fl s q l1 l2 a fw g c W SO OR KQ CF CA FQ).
+  rewrite (token_spelling fl false (lead0 s l2) q W (sigma_ok_lead0 s q l2 SO)). rewrite (token_spelling fl false s q W SO). reflexivity.
+Qed.
+Print Assumptions from_a_redundant.
+
+(* a query without FROM a / UPDATE a SET passes through unchanged *)
+Theorem remove_redundant_id : forall fl s q, wf_aq fl false q = true -> sigma_ok s q ->
+  (exists top d cn sel, q_kind q = QSelect top d cn sel) -> fa_quiet fl (render s q) = true ->
+  remove_redundant_input_table_name fl (render s q) = render s q.
+Proof.
+  intros fl s q W SO [top [d [cn [sel KQ]]]] FQ. destruct (wf_parts fl false q W) as [WH [WK _]]. pose proof SO as [ND [PR [WS [CH [HW CD]]]]].
+  assert (EF : edge_ok fl (render s q) = true).
+  { apply (render_edge_ok fl false s q (s_order s) WH CH CD). intros k I. split; [apply PR; exact I | apply WK]. }
+  unfold remove_redundant_input_table_name. rewrite (sub_quiet fl _ FQ). rewrite (strip_txt_id fl _ EF).
+  unfold render, render_q. rewrite update_a_set_select by (rewrite KQ in CH; exact CH). apply (strip_txt_id fl _ EF).
+Qed.
+Print Assumptions remove_redundant_id.
+
+(* ------------------------------------------------------------------ UPDATE a SET *)
+(* UPDATE  a  SET, one space, s_hk more spaces, the assignments, the clauses *)
+Definition render_upd_a (s : sigma) (q : aq) (asg : str) (a : nat) (c : ch) (b : nat) : str :=
+  s_hw s ++ sps (S a) ++ [c] ++ sps (S b) ++ s_set_w s ++ SP :: sps (s_hk s) ++ asg ++ render_cls (map (rcl_of s q) (s_order s)).
+Definition W_update_lc : str := Eval vm_compute in firstn 6 S_update_sp.
+(* what the code turns it into: lower-case update, no SET *)
+Definition upd_plain (s : sigma) : sigma :=
+  mkSigma (s_order s) (s_ws s) (s_lead s) (s_gaps s) (s_sp s) (s_inner s) (s_outer s) W_update_lc (s_hk s)
+    (s_top s) (s_top_g s) (s_top_sp s) (s_dist s) (s_dist_g s) (s_count s) (s_dist_sp s) false (s_set_w s) (s_set_sp s)
+    (s_asc s) (s_dir_w s) (s_dir_g s).
+
+Lemma rcl_upd_plain : forall s q k, rcl_of (upd_plain s) q k = rcl_of s q k.
+Proof. intros s q k. destruct k; reflexivity. Qed.
+
+Lemma tend_app_eq : forall fl A T, T <> [] -> tend_ok fl (A ++ T) = tend_ok fl T.
+Proof.
+  intros fl A T NE. unfold tend_ok. rewrite rev_app_distr. destruct (rev T) as [|d r] eqn:R; [|reflexivity].
+  exfalso. apply NE. rewrite <- (rev_involutive T), R. reflexivity.
+Qed.
+
+Lemma word_first_alpha : forall K w, case_rel K w -> letters K = true -> K <> [] -> exists c t, w = c :: t /\ is_alpha c = true.
+Proof.
+  intros K w C L NE. destruct C as [|k c K' w' Hc Hr]; [contradiction|]. exists c, w'. split; [reflexivity|].
+  unfold letters in L. cbn [forallb] in L. apply andb_true_iff in L. destruct L as [L _].
+  destruct Hc as [<-|[_ [Hc _]]]; assumption.
+Qed.
+
+Theorem update_set_removed : forall fl s q asg a c b,
+  wf_aq fl false q = true -> sigma_ok s q -> q_kind q = QUpdate asg -> ci_eq fl 65 c = true ->
+  fa_quiet fl (render_upd_a s q asg a c b) = true ->
+  remove_redundant_input_table_name fl (render_upd_a s q asg a c b) = render (upd_plain s) q /\ sigma_ok (upd_plain s) q.
+Proof.
+  intros fl s q asg a c b W SO KQ CA FQ. destruct (wf_parts fl false q W) as [WH [WK _]]. pose proof SO as [ND [PR [WS [CH [[CT [CDI [CC CS]]] CD]]]]].
+  assert (SO' : sigma_ok (upd_plain s) q).
+  { unfold sigma_ok, head_words_ok. cbn [upd_plain s_order s_ws s_hw s_top s_dist s_count s_set_w s_dir_w].
+    split; [exact ND|]. split; [exact PR|]. split; [exact WS|]. split; [|split; [repeat split; assumption | exact CD]].
+    rewrite KQ. cbn [head_word]. vm_compute. repeat (constructor; [first [left; reflexivity | right; repeat split; reflexivity]|]). constructor. }
+  split; [|exact SO'].
+  assert (HKall : forall k, In k (s_order s) -> present q k = true /\ kind_ok fl false q k = true) by (intros k I; split; [apply PR; exact I | apply WK]).
+  assert (EF : edge_ok fl (render (upd_plain s) q) = true).
+  { destruct SO' as [_ [_ [_ [CH' [_ CD']]]]]. apply (render_edge_ok fl false (upd_plain s) q (s_order s) WH CH' CD' HKall). }
+  assert (CU : case_rel W_UPDATE (s_hw s)) by (rewrite KQ in CH; exact CH).
+  assert (NC : is_sp c = false).
+  { unfold ci_eq in CA. unfold is_sp. destruct (N.eqb_spec c 32) as [->|]; [|reflexivity]. destruct fl; discriminate CA. }
+  assert (ANE : asg <> []).
+  { rewrite KQ in WH. cbn [head_ok] in WH. apply andb_true_iff in WH. destruct WH as [WH _]. apply clause_ok_edge in WH.
+    intros ->. discriminate WH. }
+  set (TL := sps (s_hk s) ++ asg ++ render_cls (map (rcl_of s q) (s_order s))).
+  assert (RE : render (upd_plain s) q = S_update_sp ++ TL).
+  { unfold render, render_q, TL. cbn [upd_plain s_hw s_hk s_order]. rewrite KQ. cbn [head_text upd_plain s_set app].
+    rewrite (map_ext _ _ (rcl_upd_plain s q)). reflexivity. }
+  assert (QE : render_upd_a s q asg a c b = (s_hw s ++ sps (S a) ++ [c] ++ sps (S b) ++ s_set_w s ++ [SP]) ++ TL).
+  { unfold render_upd_a, TL. rewrite <- !app_assoc. reflexivity. }
+  assert (TNE : asg ++ render_cls (map (rcl_of s q) (s_order s)) <> []) by (destruct asg; [contradiction | discriminate]).
+  assert (EQ : edge_ok fl (render_upd_a s q asg a c b) = true).
+  { pose proof (edge_tend fl _ EF) as TE. rewrite RE in TE. unfold TL in TE. rewrite !app_assoc in TE. rewrite <- app_assoc in TE.
+    rewrite (tend_app_eq fl _ _ TNE) in TE.
+    assert (TQ : tend_ok fl (render_upd_a s q asg a c b) = true).
+    { rewrite QE. unfold TL. rewrite !app_assoc. rewrite <- (app_assoc _ asg). rewrite (tend_app_eq fl _ _ TNE). exact TE. }
+    unfold edge_ok. unfold tend_ok in TQ. unfold render_upd_a in *.
+    destruct (word_first_alpha W_UPDATE (s_hw s) CU eq_refl ltac:(discriminate)) as [c0 [w' [EW AC]]]. rewrite EW in *. cbn [app] in *.
+    match type of TQ with match rev ?X with _ => _ end = _ => destruct (rev X) as [|d0 r0] end; [discriminate TQ|].
+    rewrite TQ, andb_true_r. apply negb_true_iff. apply alpha_not_txt_ws. exact AC. }
+  unfold remove_redundant_input_table_name. rewrite (sub_quiet fl _ FQ). rewrite (strip_txt_id fl _ EQ).
+  assert (UA : update_a_set fl (render_upd_a s q asg a c b) = S_update_sp ++ TL).
+  { unfold update_a_set, render_upd_a. rewrite (word_drop W_UPDATE (s_hw s) _ CU eq_refl ltac:(discriminate)).
+    rewrite (eat_ci_case fl K_UPDATE (s_hw s) _ CU).
+    change (sps (S a) ++ [c] ++ sps (S b) ++ s_set_w s ++ SP :: sps (s_hk s) ++ asg ++ render_cls (map (rcl_of s q) (s_order s)))
+      with (SP :: (sps a ++ c :: (sps (S b) ++ s_set_w s ++ SP :: TL))).
+    rewrite eat_sp1_cons. change (is_sp SP) with true. cbv iota. rewrite drop_sp_sps. rewrite (drop_sp_nonsp c _ NC). rewrite CA.
+    change (sps (S b) ++ s_set_w s ++ SP :: TL) with (SP :: (sps b ++ s_set_w s ++ SP :: TL)).
+    rewrite eat_sp1_cons. change (is_sp SP) with true. cbv iota. rewrite drop_sp_sps.
+    rewrite (word_drop K_SET (s_set_w s) _ CS eq_refl ltac:(discriminate)). rewrite (eat_ci_case fl K_SET (s_set_w s) _ CS).
+    cbn [eat_one_sp]. change (is_sp SP) with true. cbv iota. reflexivity. }
+  rewrite UA, <- RE. apply (strip_txt_id fl _ EF).
+Qed.
+Print Assumptions update_set_removed.
+
+Theorem update_set_redundant : forall fl s q asg a c b,
+  wf_aq fl false q = true -> sigma_ok s q -> q_kind q = QUpdate asg -> ci_eq fl 65 c = true ->
+  fa_quiet fl (render_upd_a s q asg a c b) = true ->
+  separate_actions fl false (remove_redundant_input_table_name fl (render_upd_a s q asg a c b))
+  = separate_actions fl false (render s q).
+Proof.
+  intros fl s q asg a c b W SO KQ CA FQ. destruct (update_set_removed fl s q asg a c b W SO KQ CA FQ) as [E SO'].
+  rewrite E. rewrite (token_spelling fl false _ q W SO'), (token_spelling fl false s q W SO). reflexivity.
+Qed.
+Print Assumptions update_set_redundant.
